@@ -169,6 +169,19 @@ func (w *vfWorld) Redis() *miniredis.Miniredis {
 
 func (w *vfWorld) RedisURL() string { return "redis://" + w.Redis().Addr() + "/0?protocol=2" }
 
+// RedisModeFlags: flags selecting the world's miniredis through the standalone, cluster or sentinel client of oauth2-proxy
+// (miniredis answers CLUSTER SLOTS with its own address; for "sentinel" a fake sentinel names miniredis as the master).
+func (w *vfWorld) RedisModeFlags(mode string) []string {
+	switch mode {
+	case "cluster":
+		return []string{"--redis-use-cluster=true", "--redis-cluster-connection-urls=redis://" + w.Redis().Addr()}
+	case "sentinel":
+		s := vfNewSentinel("vfmaster", w.Redis().Addr()) // stays up until the process ends (abandoned failover clients would re-dial in a loop)
+		return []string{"--redis-use-sentinel=true", "--redis-sentinel-master-name=vfmaster", "--redis-sentinel-connection-urls=redis://" + s.Addr()}
+	}
+	return []string{"--redis-connection-url=" + w.RedisURL()}
+}
+
 func (w *vfWorld) OnClose(f func()) { w.mu.Lock(); w.cleanup = append(w.cleanup, f); w.mu.Unlock() }
 
 func (w *vfWorld) Close() {
